@@ -121,6 +121,13 @@ def cases(tier: str) -> List[Dict[str, Any]]:
                     c = D.make_case(h, idx, "fifo", w, tz=tz)
                     if c:
                         out.append(c)
+                # ... and around New Year (own year != UTC year)
+                specs_ny = D.specs_for(h, "a", tz=tz, new_year=True)
+                s2_ny = D.specs_for(D.SECOND[idx], "b", tz=tz, new_year=True)
+                for w in D.windows(D.event_dates([specs_ny or [], s2_ny or []]), "few")[:4]:
+                    c = D.make_case(h, idx, "fifo", w, tz=tz, new_year=True)
+                    if c:
+                        out.append(c)
         if n <= 2:
             # country / language slice, single asset and two assets, chronological sheet order too
             for cc, lang in LANG_SLICE:
